@@ -162,8 +162,17 @@ def gen_leaves(sc, protos):
         # constraint is still a model of the original obligation; only FAILURE answers of such a run are used.
         kexpr = " + ".join("%d * (%s)" % (w, chr(97 + i)) for (i, (t, an)), w in zip(enumerate(al), (3, 5, 7, 11, 13, 17, 19, 23, 29, 31, 37, 41))
                           if t == "int" and an != "Z") or "0"
-        lines.append("#if defined(VERIF_CBMC) && defined(V_RESTRICT_LEAVES)")
-        lines.append("#define LEAF_%s(%s) V_CONCRETE(%s)" % (name, params, kexpr))
+        # second refutation variant (V_RESTRICT_OK): the outcome of every leaf stays symbolic (a failing leaf returns 0), only the
+        # value of a successful one is concrete - reaches changes that only show on an error path of a callee
+        conc = "V_CONCRETE(%s)" % kexpr
+        if name == "JumpFactor":
+            conc = "(1.0 + %s)" % conc     # physical jump ratios exceed 1: keeps the jump shares (J-1)/J positive in the restricted runs
+        lines.append("#if defined(VERIF_CBMC) && defined(V_RESTRICT_LEAVES) && defined(V_RESTRICT_OK)")
+        lines.append("_Bool __CPROVER_uninterpreted_ok_%s(%s);" % (name, types))
+        lines.append("#define LEAFOK_%s(%s) __CPROVER_uninterpreted_ok_%s(%s)" % (name, params, name, params))
+        lines.append("#define LEAF_%s(%s) (LEAFOK_%s(%s) ? %s : 0.0)" % (name, params, name, params, conc))
+        lines.append("#elif defined(VERIF_CBMC) && defined(V_RESTRICT_LEAVES)")
+        lines.append("#define LEAF_%s(%s) %s" % (name, params, conc))
         lines.append("#define LEAFOK_%s(%s) 1" % (name, params))
         lines.append("#elif defined(VERIF_CBMC)")
         lines.append("double __CPROVER_uninterpreted_v_%s(%s);" % (name, types))
@@ -201,7 +210,7 @@ def gen_stubs(sc, protos, names, tag, facts_override=None, with_setter=True):
         if haserr:
             out.append("double %s(%s%sxrl_error **error) {" % (name, sig, ", " if sig else ""))
             out.append("#ifdef V_RESTRICT_LEAVES")
-            out.append("  _Bool ok = 1; double v = LEAF_%s(%s);" % (name, args))
+            out.append("  _Bool ok = LEAFOK_%s(%s); double v = LEAF_%s(%s);" % (name, args, name, args))
             out.append("#else")
             out.append("  _Bool ok = __CPROVER_uninterpreted_ok_%s(%s);" % (name, args))
             out.append("  double v = __CPROVER_uninterpreted_v_%s(%s);" % (name, args))
